@@ -905,7 +905,35 @@ func (p *Proc) execRangeMap(st *State, x *ast.RangeStmt, label string, m Val, mt
 	p.visitedSort[visObj] = visSort
 	mref := p.define(st, "rangemap", m.T)
 	st.vars[visObj] = T(fmt.Sprintf("((as const %s) false)", visSort), visSort)
-	d0 := p.loopHead(st, x, x.Body, []*types.Var{visObj}, ls, pos)
+	// iteration counter, visible to invariants as iters<N>; when the loop does not modify maps of
+	// this type, iterations visit distinct keys of an unchanged map: iters <= len(map), with
+	// equality when the range is exhausted
+	itObj := types.NewVar(token.NoPos, f.pkg, fmt.Sprintf("iters%d", ls.ord), types.Typ[types.Int])
+	p.iters[ls.ord] = itObj
+	st.vars[itObj] = IntLit(0)
+	mid, _, _ := p.mapKeys(mt)
+	mod := p.modifiedBy(x)
+	_, touchesDom := mod.heap["MD:"+mid]
+	stable := !mod.all && !touchesDom
+	for _, pfx := range mod.pfx {
+		if keyMatches("MD:"+mid, pfx) {
+			stable = false
+		}
+	}
+	_, _, card0 := p.mapHeaps(st, mt)
+	cardEntry := p.define(st, "card0", Sel(card0, mref))
+	if stable {
+		c := p.freshConst("card0", SInt)
+		st.assume(Eq(c, cardEntry))
+		cardEntry = c
+	}
+	d0 := p.loopHead(st, x, x.Body, []*types.Var{visObj, itObj}, ls, pos)
+	it := st.vars[itObj]
+	if stable {
+		st.assume(And(Le(IntLit(0), it), Le(it, cardEntry)))
+	} else {
+		st.assume(Le(IntLit(0), it))
+	}
 	vis := st.vars[visObj]
 	dom, val, _ := p.mapHeaps(st, mt)
 	d := Sel(dom, mref)
@@ -913,9 +941,16 @@ func (p *Proc) execRangeMap(st *State, x *ast.RangeStmt, label string, m Val, mt
 	ex := st.clone()
 	ex.assume(T(fmt.Sprintf("(forall ((k!r %s)) (=> (select %s k!r) (select %s k!r)))", ks, d.S, vis.S), SBool))
 	ex.assume(Or(Neq(mref, IntLit(0)), T(fmt.Sprintf("(forall ((k!r %s)) (not (select %s k!r)))", ks, d.S), SBool)))
+	if stable {
+		ex.assume(Eq(it, cardEntry))
+	}
 	exits := []*State{ex}
 	// iteration: pick an unvisited key
 	k := p.freshConst("rangekey", ks)
+	if stable {
+		st.assume(Lt(it, cardEntry))
+	}
+	st.vars[itObj] = Add(it, IntLit(1))
 	st.assume(Neq(mref, IntLit(0)))
 	st.assume(Sel(d, k))
 	st.assume(Not(Sel(vis, k)))
